@@ -199,6 +199,8 @@ func init() {
 			// a 5xx storm (eight failing answers in a row: trips the breaker and ejects every backend where those
 			// features are on) alone, before and after each fault, and followed by a pause longer than every window
 			seqs = append(seqs, []string{"storm"}, []string{"storm", "storm"})
+			// a backend that goes silent in the middle of a body
+			seqs = append(seqs, []string{"stall"}, []string{"stall", "stall"}, []string{"stall", "ok"})
 			for _, k := range faultKinds {
 				seqs = append(seqs, []string{"storm", k}, []string{k, "storm"}, []string{"storm", "w", k})
 			}
